@@ -349,6 +349,13 @@ pub fn run_synth(a: &Args) {
             let lead: Vec<(&[u8], &[u8], u32)> = if notes >= 2 { vec![(b"Go", &id[..4], 4)] } else { vec![] };
             images.push((format!("gen{}{}{}{notes}", phdrs as u8, shdrs as u8, split as u8), synth_elf_gen(true, phdrs, shdrs, split, &text, &lead, if notes > 0 { Some(&id) } else { None }, 4)));
         }
+        {   // an executable linked at a fixed address (ET_EXEC): the note segment's virtual address is absolute, its file offset is not
+            let text: Vec<u8> = (0..150).map(|_| rng.next() as u8).collect(); let id: Vec<u8> = (0..20).map(|_| rng.next() as u8).collect();
+            let mut img = synth_elf_gen(true, true, false, false, &text, &[], Some(&id), 4);
+            img[16] = 2;
+            for i in 0..2 { let o = 0x40 + 56 * i; for k in [16usize, 24] { let v = u64::from_le_bytes(img[o + k..o + k + 8].try_into().unwrap()) + 0x40_0000; img[o + k..o + k + 8].copy_from_slice(&v.to_le_bytes()); } }
+            images.push(("fixed_address_executable".into(), img));
+        }
         for (tag, img) in images {
             let len = (img.len() + 4095) / 4096 * 4096;
             let m = unsafe { libc::mmap(std::ptr::null_mut(), len + 4096, libc::PROT_READ | libc::PROT_WRITE, libc::MAP_PRIVATE | libc::MAP_ANONYMOUS, -1, 0) } as *mut u8;
